@@ -344,6 +344,14 @@ def run(ctx, replay_case):
                 # a response whose sessions request parameter encryption is shown as decoded under that flag (the examples
                 # come from streams, where the flag follows from the command's sessions)
                 lines, exc = library_lines("binary", "pretty", args[0], args[1], data, enc=True)
+            if exc is None and ANSI.sub("", shown).rstrip() != lines.rstrip():
+                # the examples come from captures decoded in warn mode and are printed from the decoded object: what is shown are the
+                # example's rows.  A capture with an out-of-range value (bundled: a Create command with session handle 0x7ffc)
+                # re-decodes to the same rows plus the decoder's warning row; the rows shown must all be reproduced, in order.
+                kept = "\n".join(l for l in lines.split("\n") if not l.startswith("Warning: "))
+                if kept.rstrip() == ANSI.sub("", shown).rstrip():
+                    stats["example_redecode_adds_warning_rows"] += 1
+                    lines = kept
             if exc is not None or ANSI.sub("", shown).rstrip() != lines.rstrip():
                 viol("cli:example", f"`example {name}`: the printed example does not re-decode to what is shown", {"hex": hx, "type": tname})
                 break
